@@ -70,9 +70,12 @@ def junk():
 
 def cpu_seq():
     item = st.one_of(anyint(), st.sampled_from([0, 1, 2, 3, 63, 64, 1023, 1024, 1025, 2**20]),
+                     # fit a C long, not a C int; low 32 bits name an existing CPU
+                     st.sampled_from([2**32, 2**32 + 1, 2**32 + 3, 2**40 + 2, -(2**32) + 3, 2**33]),
                      st.just("x"), st.none(), st.just(1.0))
     return st.one_of(
         st.lists(item, max_size=8),
+        st.sampled_from([[2**32 + 3], [0, 2**32 + 1], [2**40 + 2, 1], [-(2**32) + 3], [2**32], [1, 2**33 + 1]]),
         st.just({"$obj": "hostile_len"}), st.just({"$obj": "hostile_getitem"}),
         st.just({"$obj": "neg_len"}), st.just({"$obj": "huge_range"}),
         st.just("0123"), st.just({"$b": "\x00\x01"}), st.just({"$tuple": [0, 1]}),
@@ -386,6 +389,16 @@ def run_child_case(case):
                 cl.set_debug(False)
             if fn == "pub.pid_exists" and not isinstance(r, bool):
                 raise Violation("pid_exists-type", repr(r))
+            if name in ("proc_cpu_affinity_set", "cpu_affinity") and args and args[0] == sacrificial() \
+                    and len(args) > 1 and isinstance(args[1], (list, tuple)) \
+                    and all(type(c_) is int for c_ in args[1]) and r is None and args[1]:
+                # the call claims success: the kernel's mask may only hold CPUs
+                # that were literally asked for (no number folded into range)
+                mask = os.sched_getaffinity(sacrificial())
+                if not mask <= set(args[1]):
+                    raise Violation("integer-narrowing",
+                                    f"{fn}({args[1]!r}) succeeded and the kernel's mask is now {sorted(mask)}")
+                os.sched_setaffinity(sacrificial(), range(os.cpu_count() or 1))
         except Violation:
             raise
         except Exception as e:  # noqa: BLE001  (a Python exception is a fine outcome)
